@@ -78,6 +78,8 @@ func fnKind(n string) string {
 	return parts[0] + "/" + parts[1]
 }
 
+var boundedForEvidence *BoundedResult
+
 type checkRun struct {
 	prop      string
 	tier      string
@@ -269,6 +271,16 @@ func cmdCheck(args []string) {
 	for _, n := range vanished {
 		vanByFK[fnKind(n)] = append(vanByFK[fnKind(n)], n)
 	}
+	// baseline: functions known to the ledger, and per function/kind the number of undecided obligations
+	baseFn := map[string]bool{}
+	baseUndFK := map[string]int{}
+	for _, n := range led.Discharged {
+		baseFn[strings.SplitN(n, "/", 2)[0]] = true
+	}
+	for _, n := range led.Undecided {
+		baseFn[strings.SplitN(n, "/", 2)[0]] = true
+		baseUndFK[fnKind(n)]++
+	}
 	var undecidedNew []*Obligation
 	for _, ob := range newFailing {
 		if ob.Result == "unsat" {
@@ -279,6 +291,12 @@ func cmdCheck(args []string) {
 			old := vanByFK[fk][0]
 			vanByFK[fk] = vanByFK[fk][1:]
 			viols = append(viols, violation{ob, "replaces discharged obligation " + old + " and is not provable"})
+			continue
+		}
+		if baseFn[ob.Fn] && baseUndFK[fk] == 0 {
+			// every obligation of this kind in this function was proved on the pinned tree; the changed
+			// function now contains one that cannot be proved
+			viols = append(viols, violation{ob, "new obligation in a function whose obligations of this kind were all discharged on the pinned tree"})
 			continue
 		}
 		undecidedNew = append(undecidedNew, ob)
@@ -338,7 +356,48 @@ func cmdCheck(args []string) {
 		fmt.Println(l)
 	}
 
+	// 4b. bounded stand-in (labelled, never counted as proved)
+	bounded := runBounded(*repo, vdir, *prop, *tier, seed)
+	if bounded != nil {
+		if bounded.Error != "" {
+			fmt.Fprintf(os.Stderr, "govc: bounded harness of %s failed to run: %s\n", *prop, bounded.Error)
+			os.Exit(2)
+		}
+		for i, f := range bounded.Failures {
+			data, _ := json.MarshalIndent(f, "", " ")
+			key := ""
+			if m, ok := f.(map[string]interface{}); ok {
+				if k, ok := m["key"].(string); ok {
+					key = k
+				}
+			}
+			if k, ok := known["bounded:"+key]; ok && key != "" {
+				line := fmt.Sprintf("KNOWN-FINDING: property=%s %s (bounded:%s)", *prop, k.What, key)
+				dup := false
+				for _, l := range kfLines {
+					if l == line {
+						dup = true
+					}
+				}
+				if !dup {
+					kfLines = append(kfLines, line)
+					fmt.Println(line)
+				}
+				bounded.Known = append(bounded.Known, key)
+				continue
+			}
+			path := filepath.Join(replayDir, fmt.Sprintf("%s-bounded-%d.json", *prop, i))
+			os.WriteFile(path, data, 0o644)
+			fmt.Printf("VIOLATION property=%s replay=%s bounded-failing-input=%s\n", *prop, path, strings.ReplaceAll(string(data), "\n", " "))
+			nviol++
+			exit = 1
+			if i >= 10 {
+				break
+			}
+		}
+	}
 	// 5. evidence
+	boundedForEvidence = bounded
 	writeEvidence(evPath, *prop, *tier, seed, e, vcs, obls, vcOf, &led, discharged, nviol, violNames, undecidedNew, vanished, kfLines, time.Since(start))
 	fmt.Printf("%s %s: %d/%d ledger obligations discharged, %d vanished, %d new undecided, %d violations, %.1fs\n",
 		*prop, *tier, discharged, len(led.Discharged)-len(vanished), len(vanished), len(undecidedNew), nviol, time.Since(start).Seconds())
